@@ -1410,9 +1410,7 @@ class Tensor(object):
                 len(cores) > 0
             ):  # We return a tensor: absorb existing cores with int factor
                 if self.batch:
-                    nCore = cores[-1][batch_dim_idx]
-                    if isinstance(batch_dim_idx, (int, np.integer)):
-                        nCore = nCore[None, ...]
+                    nCore = cores[-1]  # Already restricted to the selected batch elements
 
                     if nCore.dim() == 3 and factors["int"].dim() == 2:
                         cores[-1] = torch.einsum("bai,bi->bai", (nCore, factors["int"]))
